@@ -11,7 +11,7 @@ use std::collections::BTreeSet;
 
 pub const ID: &str = "C19";
 
-pub const RULE: &str = "cases = (grammar, input, mode): C01/C02-class grammars extended with group([..; N]), group((..)), collect_exactly::<[T; N]>, folds, or_not, validate and recover_with, whose mapper closures (inserted at random nodes, with extra weight inside group arrays, repetition items and choice alternatives) create drop-tracked values (unique id, registered in a per-thread ledger of live ids; Clone registers a new id; Drop of an unknown id is recorded as a double drop); inputs derived (+edits, so that the k-th of N elements fails for every k) and random; templates (each fixed-size collection x every failing position) on all strings over {a,b,c} up to length L; parse and check. Oracle (no reference needed): while the ParseResult is alive, live ids == ids reachable from the output; after dropping it, no live id remains; no double drop at any time. Token sub-check: the same with a drop-tracked TOKEN type on &[T] and Stream inputs: after the parse, the result, the errors and the parser have been dropped, exactly the caller's tokens are live, each once. A statically typed family with a zero-sized droppable output type (13 parsers: array / tuple groups, collect_exactly into [Z; N] and Box<[Z; N]>, Vec, folds; parse, check and a forced-Emit position) on every string over {a b c} up to length 5 / 7: creations minus drops must equal what the result holds, and zero after it is dropped. NON-TRIVIAL = values were created and a fixed-size collection or group was abandoned part-way (>= 1 tracked value existed when the parse of that node failed), or values were built inside a path that was then backtracked (created > reachable), or the parse failed after creating values; distinct = distinct (sub-check, grammar, input).";
+pub const RULE: &str = "cases = (grammar, input, mode): C01/C02-class grammars extended with group([..; N]), group((..)), collect_exactly::<[T; N]>, folds, or_not, validate and recover_with, whose mapper closures (inserted at random nodes, with extra weight inside group arrays, repetition items and choice alternatives) create drop-tracked values (unique id, registered in a per-thread ledger of live ids; Clone registers a new id; Drop of an unknown id is recorded as a double drop); inputs derived (+edits, so that the k-th of N elements fails for every k) and random; templates (each fixed-size collection x every failing position) on all strings over {a,b,c} up to length L; parse and check. Oracle (no reference needed): while the ParseResult is alive, live ids == ids reachable from the output; after dropping it, no live id remains; no double drop at any time. Token sub-check: the same with a drop-tracked TOKEN type on &[T] and Stream inputs: after the parse, the result, the errors and the parser have been dropped, exactly the caller's tokens are live, each once. A statically typed family with a zero-sized droppable output type (13 parsers: array / tuple groups, collect_exactly into [Z; N] and Box<[Z; N]>, Vec, folds; parse, check and a forced-Emit position) on every string over {a b c} up to length 5 / 7: creations minus drops must equal what the result holds, and zero after it is dropped. Unbounded right folds (foldr / foldr_with, five and more items, also abandoned) over tracked values. NON-TRIVIAL = values were created and a fixed-size collection or group was abandoned part-way (>= 1 tracked value existed when the parse of that node failed), or values were built inside a path that was then backtracked (created > reachable), or the parse failed after creating values; distinct = distinct (sub-check, grammar, input).";
 
 pub const ASSUMPTIONS: &[&str] = &[
     "the ledger is thread-local and reset before every case; parsers are built and dropped inside the case",
